@@ -55,7 +55,7 @@ Definition needed_requests (m : model) : list (string * (request * bool)) :=
   end.
 Definition run_parameters (m : model) : list string :=
   flat_map params_of
-    (flat_map (fun f => f_param f :: adj_exprs (f_adjs f)) (m_flows m)
+    (map realised_expr (m_flows m)       (* after an Overwrite the earlier factors are not part of the graph *)
      ++ flat_map strat_exprs (m_strats m)
      ++ flat_map action_exprs (m_actions m)
      ++ match m_initpop m with Some d => map snd d | None => [] end
